@@ -321,7 +321,43 @@ def case_flow_sitk(c, path):
     return out
 
 
-KINDS = {"roundtrip": case_roundtrip, "from_sitk": case_from_sitk, "convert": case_convert, "flow": case_flow,
+def case_msb_mha(c, path):
+    """big-endian MetaImage written by the harness (header + payload, optionally zlib), read by deepali and by SimpleITK"""
+    out = {}
+    size, C = c["grid"]["size"], c["C"]
+    D = len(size)
+    shape = tuple(reversed(size)) + ((C,) if C > 1 else ())
+    a = np.array(c["values"], dtype=NP_DT[c["dtype"]]).reshape((C,) + tuple(reversed(size)))
+    b = np.moveaxis(a, 0, -1).reshape(shape) if C > 1 else a[0]
+    payload = b.astype(b.dtype.newbyteorder(">")).tobytes()
+    met = [k for k, v in MET.items() if np.dtype(v) == np.dtype(NP_DT[c["dtype"]])][0]
+    g = c["grid"]
+    tm = [g["direction"][i][j] for j in range(D) for i in range(D)]
+    lines = ["ObjectType = Image", f"NDims = {D}", "BinaryData = True", f"{c['msb_key']} = True", f"CompressedData = {bool(c['compress'])}"]
+    if c["compress"]:
+        payload = zlib.compress(payload)
+        lines.append(f"CompressedDataSize = {len(payload)}")
+    lines += ["TransformMatrix = " + " ".join(repr(float(x)) for x in tm), "Offset = " + " ".join(repr(float(x)) for x in g["origin"]),
+              "ElementSpacing = " + " ".join(repr(float(x)) for x in g["spacing"]), "DimSize = " + " ".join(str(n) for n in size)]
+    if C > 1:
+        lines.append(f"ElementNumberOfChannels = {C}")
+    lines += [f"ElementType = {met}", "ElementDataFile = LOCAL"]
+    with open(path, "wb") as f:
+        f.write(("\n".join(lines) + "\n").encode("ascii") + payload)
+    out["write"] = "ok"
+    try:
+        out["sitk"] = sitk_view(path)
+    except Exception as e:  # noqa
+        out["sitk"] = err(e)
+    try:
+        d2, g2 = read_image(path)
+        out["read"] = {"data": tensor_out(d2), "grid": grid_out(g2)}
+    except Exception as e:  # noqa
+        out["read"] = err(e)
+    return out
+
+
+KINDS = {"msb_mha": case_msb_mha, "roundtrip": case_roundtrip, "from_sitk": case_from_sitk, "convert": case_convert, "flow": case_flow,
          "flow_sitk": case_flow_sitk}
 
 
